@@ -55,9 +55,11 @@ Red(n) == \/ redIn[n]
 
 Allowed == {"HARMFUL", "VIRTUAL"} \cup (IF allowHarmless THEN {"HARMLESS"} ELSE {})
 (* diff::priv::is_filtered_out on the inherited category *)
+(* (when every category is allowed -- --harmless on top of the default harmful ones -- priv::is_filtered_out returns false   *)
+(* before looking at REDUNDANT: nothing but suppressed classes is filtered)                                                 *)
 Filtered(n) == \/ Sup(n)
-               \/ (Red(n) /\ ~showRed)
-               \/ (Cat(n) # {} /\ Cat(n) \cap Allowed = {})
+               \/ (~allowHarmless /\ Red(n) /\ ~showRed)
+               \/ (~allowHarmless /\ Cat(n) # {} /\ Cat(n) \cap Allowed = {})
 ToBeReported(n) == HasChanges(n) /\ ~Filtered(n)
 
 (* leaf marking: a node with a local change of an acceptable kind below an interface; interface diffs themselves count as leaf function / variable changes *)
